@@ -688,6 +688,20 @@ func accessPath(v ssa.Value) string {
 		}
 		st := x.X.Type().Underlying().(*types.Pointer).Elem().Underlying().(*types.Struct)
 		return b + "." + st.Field(x.Field).Name()
+	case *ssa.IndexAddr:
+		// element of an array/slice of mutexes (lock shards): identified by the index variable's name
+		b := accessPath(x.X)
+		if b == "" {
+			return ""
+		}
+		switch i := x.Index.(type) {
+		case *ssa.Const:
+			return b + "[" + i.Value.String() + "]"
+		default:
+			if ip := accessPath(x.Index); ip != "" {
+				return b + "[" + ip + "]"
+			}
+		}
 	}
 	return ""
 }
